@@ -225,6 +225,12 @@ def check_class(ctx, R, cls, rules=None):
                         # peek-then-pop / copy-then-clear: content was read from the field and released
                         ok = any(x.kind == 'REL' and has(x.b, fieldtag) for x in evs)
                     if not ok:
+                        # the list that is released is built in a loop over values read from this field and that loop ran
+                        # zero times on this path (the taken entries carried no metadata): nothing is owed
+                        ok = any(x.kind == 'REL' for x in evs) and any(
+                            x.kind == 'LOOPEXIT' and x.a == 0 and x.c == 'cond' and fieldtag in ((x.x or {}).get('iter_tags') or ())
+                            for x in evs)
+                    if not ok:
                         # field-to-field transfer: the taken value was moved into another container
                         ok = any(x.kind == 'ST' and has(x.b, taketag) and x.a != e.a for x in evs) and \
                             any(x.kind == 'REL' for x in evs)
@@ -363,6 +369,12 @@ def _counts_downstreams(fn, count_src):
         node = ast.parse(count_src, mode='eval').body
     except SyntaxError:
         return False
+    if isinstance(node, ast.Name):
+        # fanout = len(self.downstreams) ; self._retain_refs(metadata, fanout)
+        from .idioms import local_defs
+        d = local_defs(fn.node).get(node.id, [])
+        if len(d) == 1 and d[0] is not None:
+            node = d[0]
     if not (isinstance(node, ast.Call) and isinstance(node.func, ast.Name) and node.func.id == 'len' and len(node.args) == 1):
         return False
     return _resolve_snapshot(fn, node.args[0]) in ('self.downstreams', 'list(self.downstreams)', 'tuple(self.downstreams)')
@@ -377,6 +389,9 @@ def check_emit(ctx, R):
     con = ctx.construct(fn)
     paths = ctx.paths(fn, cls)
     R.count('paths', len(paths))
+    from .delivery import delivery_loops
+    dls = delivery_loops(cls, fn)
+    dl_nodes = [l for _, l, _, _ in dls]
     bal_ok, bal_detail, bal_line, bal_evs = True, '', None, None
     timing_bad = None
     n_loop_paths = 0
@@ -385,7 +400,7 @@ def check_emit(ctx, R):
         if any(e.kind == 'EXC' for e in evs):
             continue
         rets = [e for e in evs if e.kind == 'RET']
-        iters = [i for i, e in enumerate(evs) if e.kind == 'ITER']
+        iters = [i for i, e in enumerate(evs) if e.kind == 'ITER' and e.x.get('node') in dl_nodes]
         md_true = cond_true(evs, len(evs), lambda a: a == 'metadata')
         if md_true:
             if len(rets) != 1 or rets[0].c is None or not _counts_downstreams(fn, rets[0].c):
@@ -396,7 +411,9 @@ def check_emit(ctx, R):
         if not iters:
             continue
         n_loop_paths += 1
-        bounds = iters + [len(evs)]
+        ends = [i for i, e in enumerate(evs) if e.kind in ('LOOPEXIT', 'LOOPCUT') and e.x and e.x.get('node') in dl_nodes
+                and i > iters[-1]]
+        bounds = iters + [min(ends or [len(evs)])]
         for a, b in zip(bounds, bounds[1:]):
             seg = evs[a:b]
             calls = [k for k, e in enumerate(seg) if e.kind == 'CALL' and e.c == 'update']
@@ -412,11 +429,9 @@ def check_emit(ctx, R):
                 between = seg[calls[0] + 1:rels[0]]
                 if not any(e.kind == 'SUS' for e in between):
                     timing_bad = (seg[rels[0]].line, evs)
-    # the loop iterates the same field whose length was retained (possibly through one local snapshot)
-    loops = [n for n in ast.walk(fn.node) if isinstance(n, ast.For)]
-    srcs = [_resolve_snapshot(fn, l.iter) for l in loops]
-    if not any(s in ('list(self.downstreams)', 'self.downstreams', 'tuple(self.downstreams)') for s in srcs):
-        bal_ok, bal_detail, bal_line = False, 'delivery loop does not iterate self.downstreams (found %s)' % srcs, fn.node.lineno
+    # the loop iterates the same field whose length was retained (possibly through one local snapshot / a helper)
+    if len(dls) != 1:
+        bal_ok, bal_detail, bal_line = False, 'expected one delivery loop over self.downstreams, found %d' % len(dls), fn.node.lineno
     if n_loop_paths == 0:
         from ..model import AnalysisError
         raise AnalysisError('no delivery loop found in Stream._emit')
